@@ -208,7 +208,7 @@ def run(ctx):
     cov = dict(
         traces_validated_against_impl=tot("scripts"),
         samples=[dict(selection_case=sample_case), dict(script=[{k: st.get(k) for k in ("op", "gen", "h", "mhp", "mhg", "crash", "del") if k in st} for st in sample_script])],
-        exhaustive=dict(selection_pools_up_to_transactions=maxtx, behaviours_depth=7 if quick else 8),
+        exhaustive=False, exhaustive_within=dict(selection_pools_up_to_transactions=maxtx, behaviours_depth=7 if quick else 8),
         selection_cases_enumerated=n_exh, selection_cases_drawn=n_big, selection_cases_replayed=rs["cases"], selections_compared=rs["selections"],
         selections_with_several_admissible_payloads=rs["selections_with_several_admissible_payloads"], selection_case_shapes=rs["case_shapes"],
         behaviour_states=dict(own1=b1["distinct"], own1_recv3=(b3["distinct"] if b3 else 0), own12=b2["distinct"]), control_runs=dict(mhg_last=c1["distinct"], persist_after_handoff=c2["distinct"]),
